@@ -500,6 +500,7 @@ class InterpMachine(Machine):
         self.buffers: dict = {}
         self.lastQuestion: dict | None = None
         self.prevOp = "-"
+        self.handedOut: tuple | None = None
 
     def _newObject(self, adaptive: bool) -> Any:
         obj = self.cls(self.body, self.ctl, adaptive, self.cfg["n0"])
@@ -719,6 +720,7 @@ class InterpMachine(Machine):
             self.lastQuestion = {k: v for k, v in step.items() if k != "reuse"}
         self.ctl.calls = 0
         self.ctl.fired = False
+        self._checkHandedOut(op)
         before = self.table()
         with warnings.catch_warnings():
             warnings.simplefilter("ignore")
@@ -738,6 +740,24 @@ class InterpMachine(Machine):
         return obs
 
     # -- helpers
+    def _handOut(self, res: Any) -> None:
+        """remember the array OBJECT given to the caller and its contents"""
+        if isinstance(res, np.ndarray) and res.size:
+            self.handedOut = (res, res.copy())
+
+    def _checkHandedOut(self, laterOp: str) -> None:
+        """a returned array is the caller's: later calls must not change it"""
+        if self.handedOut is None:
+            return
+        obj, was = self.handedOut
+        self.ctx.checks["earlier_result_unchanged"] += 1
+        if obj.shape != was.shape or not np.array_equal(obj, was, equal_nan=True):
+            self.handedOut = None
+            raise Violation("result-aliasing", "returned-array-changed-by-later-call",
+                            "an array returned by an earlier evaluate/derivative call changed "
+                            f"during a later call (seen before {laterOp}): the result shares "
+                            "memory with the object's internals")
+
     def _x(self, step: dict) -> Any:
         form, x = step["form"], step["x"]
         if form == "big":
@@ -1251,6 +1271,8 @@ class InterpMachine(Machine):
         x = self._x(step)
         interp = bool(step["interp"])
         status, res = self._call("evaluate", lambda: self.obj(x, interp))
+        if status == "ok":
+            self._handOut(res)
         after = self.table()
         self._evalProbes("eval", step, before)
         self._adaptiveProbe(before, after)
@@ -1262,6 +1284,8 @@ class InterpMachine(Machine):
         order = int(step["order"])
         status, res = self._call("derivative",
                                  lambda: self.obj.derivative(x, order, interp))
+        if status == "ok":
+            self._handOut(res)
         after = self.table()
         self._evalProbes("derivative", step, before)
         self._adaptiveProbe(before, after)
